@@ -27,6 +27,7 @@ func c13(c *Ctx) {
 	c13kube(c)
 	c13attach(c)
 	c13atomicSnapshot(c)
+	c13loadApplies(c)
 	c13waitHolding(c)
 }
 
